@@ -15,7 +15,7 @@
     [go_index] (index out of range) put the reader in state [SPanic]. *)
 From Coq Require Import ZArith List Bool Floats.
 From Coq Require Export Uint63.
-From Geo Require Import Base.GoPrim Base.Bytes Gen.CellID Gen.Codec.
+From Geo Require Import Base.GoPrim Base.Bytes Gen.CellID Gen.S2Rect Gen.Codec.
 Import ListNotations.
 Local Open Scope Z_scope.
 
@@ -106,7 +106,11 @@ Definition decode_cap_body (d : dec) : cap * dec :=
   let '(r, d) := read_u64 d in
   (mkcap c r, d).
 
-(** Rect.decode *)
+(** Rect.IsValid on the decoded fields (translated s2.Rect.IsValid on the floats of the patterns) *)
+Definition rect_valid (r : rect) : bool :=
+  s2_Rect_IsValid (mk_s2_Rect (mk_r1_Interval (go_float64frombits (r_lat_lo r)) (go_float64frombits (r_lat_hi r)))
+                              (mk_s1_Interval (go_float64frombits (r_lng_lo r)) (go_float64frombits (r_lng_hi r)))).
+(** Rect.decode: since 41c9631 an invalid rectangle is an error *)
 Definition decode_rect_body (d : dec) : rect * dec :=
   let '(v, d) := read_u8 d in
   if negb (wrap_i8 v =? s2_encodingVersion) && negb (failed d) then (zero_rect, set_err d) else
@@ -114,7 +118,8 @@ Definition decode_rect_body (d : dec) : rect * dec :=
   let '(b, d) := read_u64 d in
   let '(c, d) := read_u64 d in
   let '(e, d) := read_u64 d in
-  (mkrect a b c e, d).
+  let r := mkrect a b c e in
+  if negb (failed d) && negb (rect_valid r) then (r, set_err d) else (r, d).
 
 (** CellID.decode *)
 Definition decode_cellid_body (d : dec) : Z * dec := read_u64 d.
